@@ -186,7 +186,7 @@ def generate(rseed, tier='quick'):
     elif k == 'validate':
       ds = [i for i, d in enumerate(datasets) if d['model'] == mi]
       ops.append({'op': 'validate', 'q': q, 'data': r.choice(ds + [None]),
-                  'metric': r.choice(['mse', 'median_diff_ratio'])})
+                  'metric': r.choice(['mse', 'median_diff_ratio']), 'none_key': r.random() < 0.3})
     else:
       ops.append({'op': 'export', 'q': q})
   return {'v': 1, 'property': PROP, 'run_seed': rseed, 'knobs': knobs,
@@ -504,6 +504,9 @@ def execute(doc):
         else:
           key = signature_key(models[Q['model']][1])
         if key is not None:
+          if op.get('none_key') and not getattr(mspec, 'multi', False):
+            key = None     # single-signature shorthand accepted by the library
+            rec.probe('validate_none_key')
           td = {key: datasets[op['data']]}
           owned.add('testdata@%d' % step, td, 'test-data')
       if Q['result'] is None:
